@@ -118,7 +118,7 @@ var lsets = []model.LabelSet{
 var (
 	names    = []string{"a", "b", "ü"}
 	values   = []string{"", "1", "2", "x1", "x1\n", "1\n2", "\tx1\r"}
-	rePats   = []string{"1|2", "x.+", ".*", "[12]?", ".+", "x.*", ".*1", ".*x1.*", "x1", ".*2"}
+	rePats   = []string{"1|2", "x.+", ".*", "[12]?", ".+", "x.*", ".*1", ".*x1.*", "x1", ".*2", "1", "2", ""} // incl. the equality values, for operator-only edits
 	badPat   = "("
 	setPool  = [][][]Mat{
 		{{{0, "a", "1"}}},
@@ -767,7 +767,18 @@ func (r *runner) storeOp(op *Op, now int64) (string, string) {
 		before := r.coqSil(sil)
 		fresh := r.peek()
 		reqID := sil.Id
+		setsBefore := map[string]string{}
+		for _, x := range r.stored() {
+			setsBefore[x.Id] = coqSets(x.MatcherSets)
+		}
 		err := r.s.Set(ctx, sil)
+		// a local Set never changes the matchers stored under an id (an edit with other matchers gets a NEW id): this is
+		// what keeps "one matcher-set list per id", the hypothesis under which verdicts are judged, true of local edits
+		for _, x := range r.stored() {
+			if was, ok := setsBefore[x.Id]; ok && was != coqSets(x.MatcherSets) {
+				r.violate("set-changed-matchers-under-existing-id", fmt.Sprintf("Set(id=%s) changed the stored matchers of %s in place: %s -> %s (the matcher index still holds the old ones)", r.cid(reqID), r.cid(x.Id), was, coqSets(x.MatcherSets)))
+			}
+		}
 		var out string
 		if err != nil {
 			out = vh.App("RErr", vh.Str(classify(err)))
@@ -1057,6 +1068,59 @@ var dts = []int64{0, 0, 1, int64(time.Second), int64(time.Minute), int64(10 * ti
 
 func pickSets(g *vh.Rand) [][]Mat { return vh.Pick(g, setPool) }
 
+// nearEqualSets returns a copy of the matcher sets that differs in exactly one aspect: the operator of one matcher
+// (any of the other three), its value, its name, the order of the matchers of a set, or the order of the sets.
+func nearEqualSets(g *vh.Rand, sets [][]Mat) ([][]Mat, string) {
+	out := make([][]Mat, len(sets))
+	for i := range sets {
+		out[i] = append([]Mat(nil), sets[i]...)
+	}
+	if len(out) == 0 {
+		return pickSets(g), "none-stored"
+	}
+	si := g.Intn(len(out))
+	if len(out[si]) == 0 {
+		return pickSets(g), "none-stored"
+	}
+	mi := g.Intn(len(out[si]))
+	m := &out[si][mi]
+	switch k := g.Intn(10); {
+	case k < 5: // operator only: = != =~ !~ in all combinations
+		old := m.T
+		m.T = (m.T + 1 + g.Intn(3)) % 4
+		return out, fmt.Sprintf("operator-%s-to-%s", mtypeNames[old], mtypeNames[m.T])
+	case k < 7: // value only
+		for {
+			v := vh.Pick(g, []string{"1", "2", "x1", "1|2", "x.*"})
+			if v != m.V {
+				m.V = v
+				return out, "value"
+			}
+		}
+	case k < 8: // name only
+		for {
+			n := vh.Pick(g, names)
+			if n != m.N {
+				m.N = n
+				return out, "name"
+			}
+		}
+	case k < 9 && len(out[si]) > 1: // order of the matchers of one set
+		j := (mi + 1) % len(out[si])
+		out[si][mi], out[si][j] = out[si][j], out[si][mi]
+		return out, "matcher-order"
+	case len(out) > 1: // order of the OR-ed sets
+		j := (si + 1) % len(out)
+		out[si], out[j] = out[j], out[si]
+		return out, "set-order"
+	}
+	old := m.T
+	m.T = (m.T + 2) % 4
+	return out, fmt.Sprintf("operator-%s-to-%s", mtypeNames[old], mtypeNames[m.T])
+}
+
+var mtypeNames = []string{"eq", "re", "neq", "nre"}
+
 type genState struct {
 	g     *vh.Rand
 	pMute int   // probability (of 8) that a label set is probed after an op
@@ -1091,6 +1155,7 @@ func (r *runner) genOp(gs *genState, inject bool) Op {
 		}
 		return vh.Pick(g, sils), true
 	}
+	probeAll := false
 	kk := g.Intn(24)
 	if inject {
 		kk = g.Intn(16)
@@ -1113,7 +1178,15 @@ func (r *runner) genOp(gs *genState, inject bool) Op {
 		op.Kind = "set"
 		if e, ok := existing(); ok {
 			s := &Sil{ID: r.cid(e.Id), Sets: fromSets(e.MatcherSets), Start: tsZ(e.StartsAt), End: tsZ(e.EndsAt), Comment: e.Comment}
-			switch g.Intn(5) {
+			switch g.Intn(9) {
+			case 5, 6, 7, 8:
+				// an edit that differs from the stored silence ONLY in one aspect of its matchers (operator / value / name /
+				// order): it changes the meaning, so it must rewrite history - and every label set is probed afterwards
+				var kind string
+				s.Sets, kind = nearEqualSets(g, s.Sets)
+				r.tags["edit/near-equal-matchers/"+kind]++
+				r.tags["edit/near-equal-matchers"]++
+				probeAll = true
 			case 0:
 				s.End = at + vh.Pick(g, []int64{int64(2 * time.Hour), int64(time.Minute), 0, 1})
 			case 1:
@@ -1272,7 +1345,7 @@ func (r *runner) genOp(gs *genState, inject bool) Op {
 		return op
 	}
 	for j := range lsets {
-		if g.Intn(8) < gs.pMute {
+		if probeAll || g.Intn(8) < gs.pMute {
 			op.Mutes = append(op.Mutes, j)
 		}
 	}
